@@ -148,6 +148,13 @@ func CorpusGen() error {
 		add(kz.Cfg{Transform: lc[0], Entropy: lc[1], BlockSize: 32768, Jobs: 1, Checksum: []uint{0, 32, 64}[i%3], Hint: -1}, []string{"text", "cjk", "elfx86", "wav", "dna"}[i%5], 60000)
 	}
 	// small blocks, tiny inputs, empty input, headerless
+	// long runs / long distances: the multi-byte length and offset forms of RLT, ZRLT, LZ, ROLZ
+	for i, t := range []string{"RLT", "ZRLT", "RLT+ZRLT", "LZ", "LZX", "LZP", "ROLZ", "ROLZX", "BWT+RANK+ZRLT", "TEXT+RLT", "SRT", "MTFT"} {
+		add(kz.Cfg{Transform: t, Entropy: []string{"NONE", "HUFFMAN", "ANS0"}[i%3], BlockSize: 1 << 20, Jobs: 1, Checksum: []uint{32, 0, 64}[i%3]}, "longruns", 500000)
+		if strings.Contains(t, "LZ") {
+			add(kz.Cfg{Transform: t, Entropy: "NONE", BlockSize: 1 << 20, Jobs: 1, Checksum: 32}, "farmatch", 260000)
+		}
+	}
 	add(kz.Cfg{Transform: "LZ", Entropy: "HUFFMAN", BlockSize: 1024, Jobs: 1, Checksum: 32}, "text", 5000)
 	add(kz.Cfg{Transform: "BWT", Entropy: "ANS0", BlockSize: 1024, Jobs: 1, Checksum: 64}, "text", 10)
 	add(kz.Cfg{Transform: "TEXT", Entropy: "FPAQ", BlockSize: 1024, Jobs: 1}, "text", 0)
